@@ -67,13 +67,32 @@ func (d *typeDictionary) findExternal(n Node, prefix, name string) (*Typedef, er
 	if root == nil {
 		return nil, fmt.Errorf("%s: unknown prefix: %s for type %s", Source(n), prefix, name)
 	}
-	if td := d.find(root, name); td != nil {
+	if td := d.findInModule(root, name, map[*Module]bool{}); td != nil {
 		return td, nil
 	}
 	if prefix != "" {
 		name = prefix + ":" + name
 	}
 	return nil, fmt.Errorf("%s: unknown type %s", Source(n), name)
+}
+
+// findInModule returns the Typedef name defined at the top level of m or of
+// a submodule that m includes, directly or indirectly, or nil.  seen holds
+// the modules and submodules that have been searched already.
+func (d *typeDictionary) findInModule(m *Module, name string, seen map[*Module]bool) *Typedef {
+	if m == nil || seen[m] {
+		return nil
+	}
+	seen[m] = true
+	if td := d.find(m, name); td != nil {
+		return td
+	}
+	for _, in := range m.Include {
+		if td := d.findInModule(in.Module, name, seen); td != nil {
+			return td
+		}
+	}
+	return nil
 }
 
 // typedefs returns a slice of all typedefs in d.
@@ -194,9 +213,15 @@ check:
 				break check
 			}
 		}
-		// We need to check our sub-modules as well
-		for _, in := range root.Include {
-			if td = d.find(in.Module, name); td != nil {
+		// We need to check our sub-modules as well and, when we are in a
+		// submodule, the module we belong to and its other sub-modules.
+		seen := map[*Module]bool{}
+		mods := []*Module{root}
+		if root.BelongsTo != nil && root.Modules != nil {
+			mods = append(mods, root.Modules.Modules[root.BelongsTo.Name])
+		}
+		for _, m := range mods {
+			if td = d.findInModule(m, name, seen); td != nil {
 				break check
 			}
 		}
